@@ -155,6 +155,7 @@ def run(ctx, model_ok):
     sequences(ctx)
     foreign_layout(ctx)
     cli_tie(ctx, model_ok)
+    interactive_edits(ctx)
 
 
 # ---------------------------------------------------------------------------- tie of the generated edit table (C07_cli_*)
@@ -258,6 +259,45 @@ def cli_tie(ctx, model_ok):
     for i in bad:
         ctx.disagree("Model/RoutesEdit.v run_edit_parse (generated edit table) vs cli.execute(['edit', ...]) + commands.edit",
                      {"argv": items[i][1]}, "differs (evaluate run_edit_parse on this argv)", items[i][2][:300])
+
+
+def interactive_edits(ctx):
+    """the interactive editor (`torrentfile -i`, edit): a dialog that names no field leaves the metafile byte-identical; a dialog
+       that names fields changes only those (judged by frame_problems, independently of any model); every base metafile"""
+    import interactive_route as IR
+    import shutil
+    with core.Scratch("vc07i_") as tmp:
+        os.environ["HOME"] = tmp
+        bases = EC.base_metafiles(tmp, ctx.rng)
+        dialogs = [("no edit", [], {}),
+                   ("comment", [("comment", "dialog comment")], {"comment": "dialog comment"}),
+                   ("tracker", [("tracker", "http://i/1 http://i/2")], {"announce": "http://i/1 http://i/2"}),
+                   ("source+web-seed", [("source", "ISRC"), ("web-seed", "http://iw/1")], {"source": "ISRC", "url-list": "http://iw/1"}),
+                   ("clear comment", [("comment", "")], {"comment": ""})]
+        work = os.path.join(tmp, "i.torrent")
+        for bi, (label, mf) in enumerate(bases):
+            before = oracle.read(mf)
+            for di, (dname, edits, req) in enumerate(dialogs):
+                if ctx.tier == "quick" and (bi + di) % 2 and dname != "no edit":
+                    continue
+                shutil.copyfile(mf, work)
+                r = IR.run_interactive_full(IR.edit_answers(work, edits), tmp, tmp, in_process=True)
+                after = oracle.read(work) if os.path.isfile(work) else None
+                desc = {"metafile": label, "base_hex": before.hex(), "interactive_dialog": dname, "answers": IR.edit_answers("<metafile>", edits)}
+                ctx.case(key=("interactive-edit", label, dname), classes=["via interactive dialog", "interactive " + dname,
+                                                                           "metafile " + label.split("/")[0]], nontrivial=True)
+                if r["rc"] != 0 or after is None:
+                    ctx.fail("interactive-edit-raised", desc, "an edited metafile", f"{r.get('exception')}: {r['stderr'][-200:]}")
+                    continue
+                if not edits:
+                    # (a foreign metafile with unsorted top-level keys is re-written with sorted ones: no field changes)
+                    probs = frame_problems({}, before, after)
+                    if probs:
+                        ctx.fail("interactive-edit-without-edits-changed-the-file", desc, "every field and the info span unchanged", probs[:5])
+                    continue
+                probs = frame_problems(req, before, after)
+                if probs:
+                    ctx.fail("interactive-edit-frame", desc, "only the named fields change", probs[:5])
 
 
 def sequences(ctx):
